@@ -912,7 +912,7 @@ pub fn meta() -> CheckMeta {
         level: "exploration",
         rule: "real Client + SOCKS5 front-end + Server over loopback TLS behind a TCP relay that counts TLS connections (accepted, open, peak). Sequential histories of 3-200 complete requests (connect, echo, application closes, target closes, front-end winds down) with min_idle in {0,1,2,5}: the number of TLS connections after each request is recorded; every request after the first must be served without a new connection, and at the end at most 1 + min_idle connections may be open. Paused histories: 4-10 sequential requests separated by 750 ms with idle_timeout 400 ms / check_interval 200 ms and min_idle >= 1 (the reaper must keep a session, so still 1 connection). Failure histories: 8-40 sequential requests of which every second one goes to a closed port (a refused open must not cost the session). Overlap histories (min_idle 0, idle_timeout 1500 ms, check_interval 150 ms): a long and a short request overlap, the short one finishes first and its session expires while the long one's session (released later, either creation order) is still fresh; the follow-up request must reuse it. Bursty histories: rounds of k in {2,4,8,16} concurrent requests, each round after the previous one finished: at most k connections in total, at most k+1 open. The reaper and keep-alive are effectively off (3600 s) so that only reuse is observed. distinct_nontrivial = distinct histories. Abandoned transfers: 7 (thorough 31) sequential requests through SOCKS5 and through HTTP CONNECT of which two in three are dropped by the application in mid-transfer (400 KB echo, socket closed with unread data): still one TLS connection.".into(),
         assumptions: vec!["a request counts as finished once the application socket saw end of stream and 60 ms have passed".into(), "healthy session: the server and relay stay up for the whole history".into()],
-        floors: vec![("sequential_requests", 15), ("burst_rounds", 3), ("paused_sequential_requests", 4), ("sequential_requests_with_failures", 8), ("overlap_then_sequential_histories", 2), ("sequential_requests_with_aborts", 12)],
+        floors: vec![("sequential_requests", 15), ("burst_rounds", 3), ("paused_sequential_requests", 4), ("sequential_requests_with_failures", 8), ("overlap_then_sequential_histories", 2), ("sequential_requests_with_aborts", 12), ("dead_idle_neighbour_histories", 2)],
         exhaustive: false,
     }
 }
